@@ -374,11 +374,12 @@ Theorem pop_loop_noins : forall r la lb rt wt bt zl cm ip (body : body_t) els j 
   /\ flat_map (fun it => kuses K_RD la (it_pre it)) (fst res)
      = flat_map (fun el => if rt && mem_fib (elc el) zi then [(elc el, rank_in (elc el) zf)] else []) els
   /\ flat_map (fun it => suses K_WR la (it_post it)) (fst res)
-     = flat_map (fun el => if wt && mem_fib (elc el) zf then [(elc el, rank_in (elc el) zf)] else []) els.
+     = flat_map (fun el => if wt && mem_fib (elc el) zf then [(elc el, rank_in (elc el) zf)] else []) els
+  /\ p_ins (fst (snd res)) = false.
 Proof.
   intros r la lb rt wt bt zl cm ip body els. induction els as [|[pre [c e']] els IH];
     intros j st ls Hj Hs Hi Ht Hst Hpre.
-  - cbn. auto.
+  - cbn. auto 6.
   - inversion Hpre as [|? ? Hp1 Hp2]; subst. cbn [fst] in Hp1.
     destruct Hst as (Hap & Hinc & Hlast). unfold elc in Hap, Hlast. cbn [fst snd] in Hap, Hlast.
     assert (Hni : not_inserting cm j c st) by (split; auto).
@@ -398,7 +399,7 @@ Proof.
       - intros H. assert (j + 1 =? 0 = false) by lia. rewrite H0 in H. discriminate. }
     specialize (IH (j + 1) (snd post) (th_lab (snd (body c e' {| th_z := Some zref; th_lab := ls |})))
                    ltac:(lia) Hs2 Hi2 Ht2 Hst2 Hp2).
-    cbv zeta in IH. destruct IH as (IHs & IHst & IHr & IHw).
+    cbv zeta in IH. destruct IH as (IHs & IHst & IHr & IHw & IHi).
     cbn [fst snd flat_map it_pre it_post].
     set (rest := pop_loop r la lb rt wt bt zl cm ip body els (j + 1) (snd post)
                    (th_lab (snd (body c e' {| th_z := Some zref; th_lab := ls |})))) in *.
@@ -409,7 +410,7 @@ Proof.
       rewrite E1, E2, Hz2, !rank_rkn, rkn_upd_le by lia. split; auto. apply mem_upd_eq; auto. }
     destruct Hc as [Hc1 Hc2].
     assert (Hall : Forall (fun c2 => c < c2) (map elc els)) by (apply inc_from_all; auto).
-    split; [exact IHs|]. split; [|split].
+    split; [exact IHs|]. split; [|split; [|split; [|exact IHi]]].
     + intros c' Hc'. unfold elc in Hc'. cbn [fst snd] in Hc'.
       destruct (IHst c') as [E1 E2].
       { destruct els as [|el2 els2]; [exact I|]. cbn [map] in Hinc. destruct Hinc as [Hlt _]. change (c < elc el2) in Hlt. change (c' < elc el2). lia. }
@@ -448,7 +449,7 @@ Proof.
     - intros H. cbn [p_z st]. apply andb_true_iff in H. destruct H as [_ H]. specialize (Hlast H).
       destruct (last_coord zes); auto. }
   destruct (pop_loop_noins r la lb rt wt bt zl cm ip body els 0 st ls ltac:(lia) Hs eq_refl eq_refl Hst Hpre)
-    as (H1 & _ & H3 & H4).
+    as (H1 & _ & H3 & H4 & _).
   split; [exact H1|]. split; [exact H3|exact H4].
 Qed.
 
@@ -539,4 +540,29 @@ Proof.
     cbn [map fst]. apply all_gt_inc; auto.
   - unfold els, src_stream. cbn [fst]. apply Forall_forall. intros el Hin. apply in_map_iff in Hin.
     destruct Hin as (ct & <- & _). reflexivity.
+Qed.
+
+(* ... and such a traversal ends not inserting: there is no shift phase *)
+Lemma pop_level_noins_pins : forall (L : level) e els zes r la lb rt wt bt zl ip (body : body_t) ls oe isp,
+  map el_ce els = ref_elems L e ->
+  match map fst (ref_elems L e) with [] => True | c0 :: cs => inc_from c0 cs end ->
+  Forall (fun el => kuses K_RD la (fst el) = []) els ->
+  ssorted_f zes -> appending L zes e = true ->
+  let st := {| p_z := zes; p_apos := 0; p_ins := false; p_oldend := oe; p_toins := []; p_isp := isp |} in
+  p_ins (fst (snd (pop_loop r la lb rt wt bt zl (negb (l_zufmt L)) ip body els 0 st ls))) = false.
+Proof.
+  intros L e els zes r la lb rt wt bt zl ip body ls oe isp Hels Hinc Hpre Hs Happ st.
+  assert (Hc : map elc els = map fst (ref_elems L e)).
+  { rewrite <- Hels, map_map. reflexivity. }
+  assert (Hst : start_ok (negb (l_zufmt L)) 0 st els).
+  { destruct els as [|el els']; [exact I|]. cbn [map] in Hc. rewrite <- Hc in Hinc.
+    split; [|split; [exact Hinc|]].
+    - cbn [p_apos p_z st]. rewrite rank_rkn. lia.
+    - intros H. cbn [p_z st]. apply andb_true_iff in H. destruct H as [_ Hcm].
+      unfold appending in Happ. apply negb_true_iff in Hcm. rewrite Hcm in Happ. cbn [orb] in Happ.
+      destruct (last_coord zes) as [m|]; [|exact I].
+      rewrite <- Hels in Happ. cbn [map el_ce fst] in Happ. apply negb_true_iff in Happ. exact Happ. }
+  destruct (pop_loop_noins r la lb rt wt bt zl (negb (l_zufmt L)) ip body els 0 st ls ltac:(lia) Hs eq_refl eq_refl Hst Hpre)
+    as (_ & _ & _ & _ & H5).
+  exact H5.
 Qed.
